@@ -50,6 +50,9 @@ func RunCase(c *Codec, cs Case) (rt *Fail, lim *Fail, out Outcome) {
 		f := failf(c.Name+"/enc-init", "encoder init: %v", err)
 		return f, f, out
 	}
+	if cs.Limit == 0 {
+		cs.Limit = DefaultLimit // left unset: the documented default is the limit to hold
+	}
 	dec, err := c.NewDec()
 	if err != nil {
 		f := failf(c.Name+"/dec-init", "decoder init: %v", err)
@@ -294,6 +297,9 @@ func uniq(a []int) []int {
 	return o
 }
 
+// DefaultLimit is what every encoder documents for PayloadMaxSize left at zero.
+const DefaultLimit = 1450
+
 // Limits returns the payload size limits explored for c.
 func (c *Codec) Limits(thorough bool) (small []int, large []int) {
 	hi := min(c.MinLimit+16, 24)
@@ -409,7 +415,12 @@ func Enumerate(c *Codec, thorough bool, emit func(Case)) {
 			}
 		}
 	}
-	for _, M := range large {
+	// the limit left unset: the encoder's documented default (1450) applies; emitted as limit 0
+	for _, M0 := range append(append([]int{}, large...), -DefaultLimit) {
+		M, lim := M0, M0
+		if M0 < 0 {
+			M, lim = -M0, 0
+		}
 		// aggregation ladder: n equal small units, n = 5..24 (many units in one packet: per-unit header
 		// arithmetic that only goes wrong from a certain count on)
 		if c.MaxUnits >= 2 {
@@ -422,14 +433,14 @@ func Enumerate(c *Codec, thorough bool, emit func(Case)) {
 					for i := range f {
 						f[i] = u
 					}
-					mk(M, [][]int{f}, 65530, 1, n*u)
+					mk(lim, [][]int{f}, 65530, 1, n*u)
 				}
 			}
 		}
 		th := c.thresholdSizes(M, 8)
 		for _, s := range th {
 			for _, q := range seqs {
-				mk(M, [][]int{{s}}, q, 0xFFFFFFFF, s)
+				mk(lim, [][]int{{s}}, q, 0xFFFFFFFF, s)
 			}
 		}
 		if c.MaxUnits >= 2 {
@@ -439,7 +450,7 @@ func Enumerate(c *Codec, thorough bool, emit func(Case)) {
 			}
 			for _, a := range t2 {
 				for _, b := range t2 {
-					mk(M, [][]int{{a, b}}, 65535, 1, a+b)
+					mk(lim, [][]int{{a, b}}, 65535, 1, a+b)
 				}
 			}
 			t3 := thin(c.thresholdSizes(M, 2), 24)
@@ -450,7 +461,7 @@ func Enumerate(c *Codec, thorough bool, emit func(Case)) {
 				for _, a := range t3 {
 					for _, b := range t3 {
 						for _, d := range t3 {
-							mk(M, [][]int{{a, b, d}}, 65534, 0, a+b+d)
+							mk(lim, [][]int{{a, b, d}}, 65534, 0, a+b+d)
 						}
 					}
 				}
@@ -459,7 +470,7 @@ func Enumerate(c *Codec, thorough bool, emit func(Case)) {
 		ser := thin(c.thresholdSizes(M, 1), 8)
 		for _, a := range ser {
 			for _, b := range ser {
-				mk(M, [][]int{{a}, {b}}, 65535, 1, a+b)
+				mk(lim, [][]int{{a}, {b}}, 65535, 1, a+b)
 			}
 		}
 	}
